@@ -302,6 +302,38 @@ def tsan_stress(rep, tier, outputs=("file", "devlog", "stdout")):
                 if key in f2:
                     rep.violation("race:" + "+".join(key), "data race outside the repository lock (%d threads, output %s): %s <-> %s" % (nthreads, out, f1[key][0], f1[key][1]),
                                   dict(output=out, threads=nthreads, frames=f1[key]))
+    # record integrity under free-running threads: records longer than a stdio / pipe buffer (9 KB) must still come out whole, one line per call
+    pad = 9000
+    for out in ("stdout", "file"):
+        log = os.path.join(root, "whole-%s.log" % out)
+        ini = os.path.join(root, "whole-%s.ini" % out)
+        open(ini, "w").write('[snoopy]\nmessage_format = "%%{filename} %%{cmdline}"\noutput = %s\ndatasource_message_max_length = 20000\nlog_message_max_length = 40000\n' % (
+            "file:" + log if out == "file" else "stdout"))
+        for attempt in range(2 if tier == "quick" else 6):
+            if os.path.exists(log):
+                os.unlink(log)
+            with open(log if out == "stdout" else os.devnull, "ab") as fo:
+                p = subprocess.run([root + "/tsstress", ini, str(nthreads), str(ncalls), str(pad)], stdout=fo, stderr=subprocess.PIPE, text=True, timeout=900, stdin=subprocess.DEVNULL,
+                                   env=dict(os.environ, TSAN_OPTIONS="halt_on_error=0 report_signal_unsafe=0 history_size=4 exitcode=0"))
+            runs += 1
+            lines = open(log, "rb").read().split(b"\n") if os.path.exists(log) else []
+            if lines and lines[-1] == b"":
+                lines.pop()
+            want = {}
+            for t in range(1, nthreads + 1):
+                for k in range(ncalls):
+                    want[b"/nonexistent/T%dC%d prog-T%d call-%d %s" % (t, k, t, k, bytes([97 + t % 26]) * pad)] = 0
+            damaged = [l for l in lines if l not in want]
+            for l in lines:
+                if l in want:
+                    want[l] += 1
+            missing = [k for k, v in want.items() if v == 0]
+            dup = [k for k, v in want.items() if v > 1]
+            if damaged or missing or dup:
+                rep.violation("stress-records:" + out, "%d threads x %d calls with %d-byte records to %s: %d damaged lines, %d records missing, %d duplicated (e.g. %r)" % (
+                    nthreads, ncalls, pad + 40, out, len(damaged), len(missing), len(dup), (damaged or missing or dup)[0][:60] + b"..." + (damaged or missing or dup)[0][-30:]),
+                    dict(output=out, threads=nthreads, calls=ncalls))
+                break
     rep.cov["tsan_stress_runs"] = runs
     rep.cov["tsan_stress_threads_x_calls"] = [nthreads, ncalls]
     rep.assumptions.append("TSan stress: the repository mutex is hidden from the race detector (so it cannot order unrelated accesses) and reports with a racing frame in tsrm.c / util/list.c are ignored")
